@@ -24,10 +24,12 @@ def job_logic(spec):
     import z3
     from harness import pairs_logic as PL
     t0 = time.time()
-    eng, paths, info = PL.explore(cfg_name, order)
+    repeat = order.endswith("+repeat")
+    order = order.replace("+repeat", "")
+    eng, paths, info = PL.explore(cfg_name, order, repeat=repeat)
     contacts = PL.contacts_of(info)
     cfg = info["cfg"]
-    res = {"name": f"logic:{cfg_name}:{order}", "paths": len(paths), "verdicts": [], "reach": 0}
+    res = {"name": f"logic:{cfg_name}:{order}{'+repeat' if repeat else ''}", "paths": len(paths), "verdicts": [], "reach": 0}
     ident = [(c, n, None) for (_, c, n, _) in cfg]
     lower = 0 if ident[0][:2] < ident[1][:2] else 1      # residue index of the lower residue
     upper = 1 - lower
@@ -74,6 +76,14 @@ def job_logic(spec):
         res["verdicts"].append({"ob": f"donor/acceptor/edge tables differ from the pinned transcript: {bad_tables}", "v": "sat", "key": "find_pairs:tables",
                                 "w": {"cfg": cfg_name, "tables": bad_tables}})
     for path, out in paths:
+        if isinstance(out, PL.RepeatMismatch):
+            v, m, _ = eng.prove(path, z3.BoolVal(True))
+            w_ = wit(m)
+            if w_ is not None:
+                w_["repeat"] = True
+            res["verdicts"].append({"ob": f"the same structure annotated twice in one process gives {[b.lw.value for b in out.args[0][0]]} then "
+                                    f"{[b.lw.value for b in out.args[1][0]]}", "v": v, "key": "find_pairs:repeat", "w": w_})
+            continue
         if isinstance(out, Exception):
             v, m, _ = eng.prove(path, z3.BoolVal(True))
             res["verdicts"].append({"ob": f"find_pairs raised {type(out).__name__}: {out}", "v": v, "key": "find_pairs:exception", "w": wit(m)})
@@ -222,6 +232,11 @@ def replay_logic(w):
     A.KDTree, A.angle_between_vectors, A.torsion_angle = KD, fake_angle, fake_torsion
     try:
         bps, _, _ = A.find_pairs(Structure3D(residues))
+        if w.get("repeat"):
+            again, _, _ = A.find_pairs(Structure3D(residues))
+            if [repr(x) for x in again] != [repr(x) for x in bps]:
+                print("first call", [b.lw.value for b in bps], "second call", [b.lw.value for b in again])
+                return False
     finally:
         A.KDTree, A.angle_between_vectors, A.torsion_angle = saved
     # concrete oracle
@@ -510,7 +525,7 @@ def _dispatch(spec):
 def run(rep, tier):
     from vlib.core import Violation, VERIF
     from vlib.par import pmap, Crashed
-    specs = [("logic", ("GC", "fwd")), ("logic", ("AU-rev", "fwd")), ("logic", ("AG-sugar", "fwd")), ("logic", ("GC", "rev")), ("logic", ("GU-mixed", "sym")), ("logic", ("GG-hoog", "fwd")), ("logic", ("GA-sugar3", "fwd")),
+    specs = [("logic", ("GC", "fwd")), ("logic", ("AU-rev", "fwd")), ("logic", ("AG-sugar", "fwd")), ("logic", ("GC", "rev+repeat")), ("logic", ("GU-mixed", "sym")), ("logic", ("GG-hoog", "fwd")), ("logic", ("GA-sugar3", "fwd")),
              ("contact", (2, False)), ("contact", (0, True)), ("cistrans", ("G", "C")), ("cistrans", ("U", "A")),
              ("normal", ("G", None)), ("normal", ("C", None)), ("normal", ("A", "N7")), ("normal", ("U", "O2"))]
     if tier != "quick":
